@@ -337,11 +337,17 @@ func TestHistogram(t *testing.T) {
 		vkit.Watch(tHdr, "C19:terminates", 2*time.Minute, func() any { return rc }, func() { check(t, &rc) })
 		return
 	}
-	rapid.Check(t, func(t *rapid.T) {
-		c, cls := genCase(t)
-		var cls2 []string
-		var nt bool
-		vkit.Watch(tHdr, "C19:terminates", 2*time.Minute, func() any { return *c }, func() { cls2, nt = check(t, c) })
-		vkit.Case(tHdr, vkit.Hash(*c), nt, append(cls, cls2...), func() any { return *c })
-	})
+	rapid.Check(t, propHistogram)
 }
+
+// propHistogram is the generated property; FuzzHistogram drives the same function with
+// the native coverage-guided fuzzer (rapid.MakeFuzz decodes the bytes).
+func propHistogram(t *rapid.T) {
+	c, cls := genCase(t)
+	var cls2 []string
+	var nt bool
+	vkit.Watch(tHdr, "C19:terminates", 2*time.Minute, func() any { return *c }, func() { cls2, nt = check(t, c) })
+	vkit.Case(tHdr, vkit.Hash(*c), nt, append(cls, cls2...), func() any { return *c })
+}
+
+func FuzzHistogram(f *testing.F) { f.Fuzz(rapid.MakeFuzz(propHistogram)) }
